@@ -32,8 +32,12 @@ class DocModels(GenModels):
 
         def yaml_from_str(c, m, a):
             ty = m.group("t")
-            # the YAML reader is cut: it either rejects the text or yields an (empty) configuration
-            if c.decide(c.sym_bool(c.fresh_name("yaml_ok")).v):
+            # the YAML reader is cut: it either rejects the text or yields an (empty) configuration — the same answer for the same text
+            key = ("yaml", ty, tuple((ch.v if ch.concrete else str(ch.z())) for ch in as_str(a[0]).chars))
+            memo = c.notes.setdefault("yaml_memo", {})
+            if key not in memo:
+                memo[key] = c.decide(c.sym_bool(c.fresh_name("yaml_ok")).v)
+            if memo[key]:
                 impl = c.program.resolve_call("<%s as Default>::default" % ty)
                 return ok(c.call(impl, []))
             return err(Opaque("serde_yaml::Error"))
@@ -57,6 +61,8 @@ MD_TEMPLATES = {
     "L": ("````s", 0),  # scrut fence of four backticks (nested shorter fences are content)
     "K": ("````", 0),   # bare fence of four backticks
     "I": ("  ```", 0),  # an indented backtick run: never a fence
+    "D": ("---", 0),    # front-matter delimiter (only generated as first line and as its closing line)
+    "Y": ("k: ", 1),    # a line of front-matter
 }
 FENCES = {"F": 3, "V": 3, "E": 3, "L": 4, "K": 4}      # template → number of backticks at the start of the line
 SCRUT_FENCES = ("F", "L")
@@ -78,7 +84,31 @@ def md_line(ctx, t, i):
     return chars + payload, payload
 
 
+def front_matter_len(seq):
+    """number of leading lines that form the front-matter (delimiters included); 0 if there is none; -1 if it is unterminated"""
+    if not seq or seq[0] != "D":
+        return 0
+    j = seq.find("D", 1)
+    return j + 1 if j >= 0 else -1
+
+
+def shift_test(t, k):
+    return {"cmd": [x + k for x in t["cmd"]], "exps": [x + k for x in t["exps"]], "exit": t["exit"], "line": t["line"] + k,
+            "title": (t["title"] + k) if isinstance(t["title"], int) else t["title"], "pre": [x + k for x in t["pre"]]}
+
+
 def md_reference(seq):
+    """expected parse of a template sequence per the statement of C06 (front-matter: configuration only, never tests or titles)"""
+    k = front_matter_len(seq)
+    if k < 0:
+        return []                 # unterminated front-matter is read to the end of the document: no tests
+    if k:
+        ref = md_reference_body(seq[k:])
+        return [shift_test(t, k) for t in ref] if isinstance(ref, list) else ref
+    return md_reference_body(seq)
+
+
+def md_reference_body(seq):
     """expected parse of a template sequence per the statement of C06, or None if the statement leaves it open.
     → list of tests: dict(cmd=[line idx...], exps=[(line idx, kind)], exit=7|None, line=int, title=line idx | None | 'skip')"""
     tests = []
@@ -257,6 +287,15 @@ def md_sequences(max_len, alphabet="PHBFVECGXR", need="F"):
     return out
 
 
+FRONT_MATTERS = ["DD", "DYD", "DBD", "DYBD", "DBYD", "DYYD", "DY", "D"]
+
+
+def md_front_matter_sequences(body_len):
+    """documents that start with a front-matter (empty, with keys, with blank lines before the closing delimiter, unterminated)"""
+    bodies = [""] + ["".join(t) for n in range(1, body_len + 1) for t in itertools.product("PBFCX", repeat=n)]
+    return [fm + b for fm in FRONT_MATTERS for b in bodies if fm[-1] == "D" and len(fm) > 1 or b == ""]
+
+
 def md_doc_text(seq, payloads):
     """concrete document for a sequence and concrete payload letters"""
     lines = []
@@ -307,6 +346,10 @@ def h_md_parse(max_len):
             seen.add(s_)
     # nested fences: a four-backtick scrut block with three-backtick / indented backtick lines as content
     for s_ in md_sequences(max_len, "LKIECX", need="L"):
+        if s_ not in seen:
+            seqs.append(s_)
+            seen.add(s_)
+    for s_ in md_front_matter_sequences(max_len - 1):
         if s_ not in seen:
             seqs.append(s_)
             seen.add(s_)
@@ -570,9 +613,14 @@ def replay_cram(rep, nat, h, res):
 
 
 def md_blocks(seq):
-    """block structure of a template sequence → list of ('line', i) | ('verbatim', [idx]) | ('test', open, [comments], [code], close|None)"""
+    """block structure of a template sequence → list of ('line', i) | ('verbatim', [idx]) | ('test', open, [comments], [code], close|None);
+    front-matter lines are plain lines here (they are kept byte for byte)"""
     out = []
-    i, n = 0, len(seq)
+    k = front_matter_len(seq)
+    if k < 0:
+        return [("line", i) for i in range(len(seq))]
+    out = [("line", i) for i in range(k)]
+    i, n = k, len(seq)
     while i < n:
         t = seq[i]
         if t in FENCES:
@@ -595,15 +643,21 @@ def md_blocks(seq):
     return out
 
 
-def md_update_expected(seq, moved=False):
+NEW_OUTPUT = "zz"      # what a failing test prints instead (one line); templates never produce this text as an expectation
+
+
+def md_update_expected(seq, moved=False, fails=()):
     """what `update` with all-passing outcomes must produce, as a list of items ('orig', line idx) | ('text', str), or None where the
     statement leaves it open (exit-code line not last, blocks without a command, bare fences …).
     moved=True: the variant in which lines written before a block's command come out after it (a recorded finding)"""
     ref = md_reference(seq)
     if not isinstance(ref, list):
         return None
+    if front_matter_len(seq) < 0:
+        return None              # an unterminated front-matter: whether `update` closes it is left open
     items = []
     tests = iter(ref)
+    test_no = -1
     for b in md_blocks(seq):
         if b[0] == "line":
             items.append(("orig", b[1]))
@@ -616,12 +670,22 @@ def md_update_expected(seq, moved=False):
             if not any(seq[x] == "C" for x in code):
                 return None          # a scrut block without command: no test case, nothing prescribed here
             t = next(tests)
+            test_no += 1
             rs = [x for x in code if seq[x] == "R"]
             if rs and rs[-1] != code[-1]:
                 return None          # exit-code line is re-emitted last: only prescribed when it was written last
             # the fences of a rewritten block may change their length (the statement keeps language / configuration / comments): any
             # k >= 3 backticks longer than every backtick run that starts a line of the body, the same k for opener and closer
             min_k = max([3] + [FENCES[seq[x]] + 1 for x in comments + code if seq[x] in FENCES])
+            if test_no in fails:
+                # a failing test: fence (language / configuration), comments and command stay, the expectations become the new output,
+                # the written exit code stays (the new run ended with it)
+                if t["pre"]:
+                    return None
+                items.append(("open", open_i, 3))
+                items += [("orig", x) for x in comments] + [("orig", x) for x in t["cmd"]] + [("text", NEW_OUTPUT)] + [("orig", x) for x in rs]
+                items.append(("close", 3))
+                continue
             items.append(("open", open_i, min_k))
             items += [("orig", x) for x in comments]
             if moved and t["pre"]:
@@ -665,13 +729,28 @@ def md_update_driver(ctx, args):
         return Agg("tuple", None, [SBool(False)])
     tests = as_items(r.fields[0].fields[1])
     outcomes = []
-    for t in tests:
+    fails = []
+    for i, t in enumerate(tests):
         ec = field_of(t, "exit_code")
         code = ec.fields[0] if ec.variant == "Some" else mk_int(0, "i32")
-        out = mk_struct("Output", stderr=Agg("OutputStream", None, [VecBuf([], "u8")]), stdout=Agg("OutputStream", None, [VecBuf([], "u8")]),
-                        exit_code=Agg("ExitStatus", "Code", [code]))
+        failing = ctx.notes.get("with_failures") and ctx.decide(ctx.sym_bool("fails%d" % i).z())
+        if failing:
+            # the command now prints one other line: no expectation matches, the line is unexpected
+            fails.append(i)
+            new_out = [SInt(b, "u8") for b in (NEW_OUTPUT + "\n").encode()]
+            dl = [Agg("DiffLine", "UnmatchedExpectation", [mk_int(j, "usize"), e]) for j, e in enumerate(as_items(field_of(t, "expectations")))]
+            dl.append(Agg("DiffLine", "UnexpectedLines", [VecBuf([Agg("tuple", None, [mk_int(0, "usize"), VecBuf(list(new_out), "u8")])])]))
+            diff = mk_struct("Diff", lines=VecBuf(dl), count_matched=mk_int(0, "usize"), count_unmatched=mk_int(len(dl) - 1, "usize"), count_output_lines=mk_int(1, "usize"))
+            out = mk_struct("Output", stderr=Agg("OutputStream", None, [VecBuf([], "u8")]), stdout=Agg("OutputStream", None, [VecBuf(new_out, "u8")]),
+                            exit_code=Agg("ExitStatus", "Code", [code]))
+            result = Agg("Result", "Err", [Agg("TestCaseError", "MalformedOutput", [diff])])
+        else:
+            out = mk_struct("Output", stderr=Agg("OutputStream", None, [VecBuf([], "u8")]), stdout=Agg("OutputStream", None, [VecBuf([], "u8")]),
+                            exit_code=Agg("ExitStatus", "Code", [code]))
+            result = Agg("Result", "Ok", [UNIT])
         outcomes.append(new_ref(mk_struct("Outcome", location=none(), output=out, testcase=t, format=Opaque("format"),
-                                          escaping=Agg("Escaper", "Unicode", []), result=Agg("Result", "Ok", [UNIT]))))
+                                          escaping=Agg("Escaper", "Unicode", []), result=result)))
+    ctx.notes["fails"] = fails
     gen = Agg("MarkdownUpdateGenerator", None, [VecBuf([StringBuf([SInt(ord("s"), "char")])])])
     f = find_method(prog, "generators/markdown.rs", "generate_update")
     u = ctx.call(f, [new_ref(gen), args[0], Slice(outcomes)])
@@ -691,7 +770,8 @@ def md_update_post(ctx, args, kind, value):
     f = value.fields
     if not f[0].v:
         return True              # the document does not parse: nothing to update
-    exp = md_update_expected(seq)
+    fails = ctx.notes.get("fails", [])
+    exp = md_update_expected(seq, fails=fails)
     if exp is None:
         return True
     if f[3].v == 0:
@@ -706,9 +786,15 @@ def md_update_post(ctx, args, kind, value):
     if len(tests2) != len(tests):
         return False
     again = []
-    for t1, t2 in zip(tests, tests2):
+    for ti, (t1, t2) in enumerate(zip(tests, tests2)):
         again.append(same(list(as_str(field_of(t1, "shell_expression")).chars), list(as_str(field_of(t2, "shell_expression")).chars)))
         e1, e2_ = as_items(field_of(t1, "expectations")), as_items(field_of(t2, "expectations"))
+        if ti in fails:
+            # the rewritten test expects exactly the new output
+            if len(e2_) != 1:
+                return False
+            again.append(same(list(as_str(e2_[0].fields[3]).chars), [SInt(ord(c), "char") for c in NEW_OUTPUT]))
+            continue
         if len(e1) != len(e2_):
             return False
         for a, b in zip(e1, e2_):
@@ -758,6 +844,10 @@ def h_md_update(max_len):
         if s_ not in seen:
             seqs.append(s_)
             seen.add(s_)
+    for s_ in md_front_matter_sequences(max_len - 1):
+        if s_ not in seen:
+            seqs.append(s_)
+            seen.add(s_)
     inputs = [("doc=%s" % (s or "(empty)"), mk_md_setup(s)) for s in seqs]
     h = e2.Harness("markdown_update_passing_tests", md_update_driver, inputs, md_update_post, native="markdown_update", judge=None,
                    describe="updating a document whose tests all pass does not crash and returns it unchanged line for line (prose, other code "
@@ -768,13 +858,36 @@ def h_md_update(max_len):
     return h
 
 
+def h_md_update_failing(max_len):
+    """the same documents with any subset of their tests failing (the command prints one other line)"""
+    seqs = [s_ for s_ in md_sequences(max_len, "PHBFCGXR") if "C" in s_]
+
+    def mk(s_):
+        base = mk_md_setup(s_)
+
+        def setup(ctx):
+            ctx.notes["with_failures"] = True
+            return base(ctx)
+        return setup
+    inputs = [("doc=%s" % s_, mk(s_)) for s_ in seqs]
+    h = e2.Harness("markdown_update_failing_tests", md_update_driver, inputs, md_update_post, native="markdown_update", judge=None,
+                   describe="updating a document in which any subset of the tests fails: everything outside the failing blocks is unchanged; a failing "
+                            "block keeps its fence language, comments, command and exit code and gets the new output as expectations; the updated "
+                            "document parses to the same commands",
+                   bound="all template documents of <= %d lines over P H B F C G X R with a command; every subset of failing tests; new output = one line"
+                         % max_len)
+    h.models_cls = DocModels
+    return h
+
+
 def replay_update(rep, nat, h, res):
     for model, r in res.raw_witnesses[:8]:
         seq = r.ctx.notes["seq"]
         lines = ["".join(chr(e2.model_int(model, c)) for c in ln) for ln in r.ctx.notes["lines"]]
         doc = "\n".join(lines) + ("\n" if lines else "")
-        nk, nv = nat.call("markdown_update", [doc, ["s"]])
-        exp = md_update_expected(seq)
+        fails = list(r.ctx.notes.get("fails", []))
+        nk, nv = nat.call("markdown_update", [doc, ["s"], fails])
+        exp = md_update_expected(seq, fails=fails)
         if nk != "return":
             rep.violation("update:panic", "updating the document %r (all tests passing) panics: %s" % (doc, str(nv)[:100]),
                           {"kind": "eval", "fn": "markdown_update", "args": [doc, ["s"]], "native": [nk, nv], "harness": h.name})
@@ -799,14 +912,15 @@ def replay_update(rep, nat, h, res):
                     outl.append(it[1])
             return "".join(x + "\n" for x in outl)
         want = render(exp)
-        if "updated" in nv and nv.get("reparsed") != {"Ok": nv.get("original")}:
+        want_again = [dict(t_, expectations=[NEW_OUTPUT]) if i_ in fails else t_ for i_, t_ in enumerate(nv.get("original") or [])]
+        if "updated" in nv and nv.get("reparsed") != {"Ok": want_again}:
             rep.violation("update:updated-document-parses-differently",
                           "updating %r with all tests passing yields %r, which parses to %s instead of the original %s"
                           % (doc, nv["updated"], nv.get("reparsed"), nv.get("original")),
                           {"kind": "eval", "fn": "markdown_update", "args": [doc, ["s"]], "native": [nk, nv], "harness": h.name})
         elif not update_matches_concrete(seq, lines, exp, nv.get("updated")):
             trunc = nv.get("updated") is not None and len(nv["updated"]) < len(want)
-            alt = md_update_expected(seq, moved=True)
+            alt = md_update_expected(seq, moved=True, fails=fails)
             moved_ok = bool(alt) and nv.get("tests") != 0 and update_matches_concrete(seq, lines, alt, nv.get("updated"))
             rep.violation("update:%s" % ("truncated" if trunc else "lines-before-command-moved-after-it" if moved_ok else "changed-passing-document"),
                           "updating %r with all tests passing yields %r instead of %r" % (doc, nv.get("updated", nv), want),
